@@ -238,7 +238,8 @@ def main(args):
         for name in sorted(os.listdir(bdir)) if os.path.isdir(bdir) else []:
             repo = make_copy()
             try:
-                ok, out = git_apply(repo, os.path.join(bdir, name, "patch.diff"))
+                pc = os.path.join(bdir, name, "patch_current.diff")     # the same refactoring re-made after a later fix changed the lines
+                ok, out = git_apply(repo, pc if os.path.exists(pc) else os.path.join(bdir, name, "patch.diff"))
                 if not ok:
                     results.append(("corpus:" + name, "skip", "patch no longer applies to the current tree"))
                     continue
